@@ -1,9 +1,10 @@
 package main
 
 import (
-	"go/ast"
+	"fmt"
 	"go/token"
 	"go/types"
+	"os"
 	"strings"
 
 	"golang.org/x/tools/go/ssa"
@@ -13,10 +14,10 @@ func init() {
 	register(&propDef{
 		ID:      "C15",
 		Level:   "other",
-		Explain: "Configuration loading, decided structurally: (R1) for every flag registration f.<T>Var(&cfg.P, name, default, usage) in config.load the default is defaultConfig.P for the same field path P (exceptions are a frozen, reasoned table), no two flags bind the same variable, and no two flag names collide case-insensitively (the environment lookup upper-cases them); (R2) in FlagSet.ParseFlags the command line is parsed first, flags set there are marked before the fallback pass, the fallback closure returns at once for a marked flag, looks the environment up (prefixes in slice order) before the properties, and every source that supplies a value marks the flag, assigns through FlagSet.Set (the same flag.Value.Set the command line uses) and returns; (R3) config.Load passes the prefixes [\"FABIO_\", \"\"] in that order, environment names are ToUpper(prefix + Replace(name, \".\", \"_\")) and the environment map is keyed by ToUpper(name); (P*) partial operations reachable from config.Load (Split/SplitN indices, slice bounds from Index*) are guarded; (V1) every int option that flows into an allocation size, channel capacity or status code has a range check in load (error return) or a clamp dominating the sink; (V2) values built from configuration at start-up are not used on the path on which their constructor's error was observed and only logged. (V3) enumerated options are validated raw against exactly the keys of the registries they index. (V1, extended) the range check of an option that sizes an allocation dominates the successful return of load, i.e. is not conditional on another option; Not decided: equality of the resulting Config across sources for every value of every type (behaviour of flag.Value.Set per type; R2 shows all sources use it).",
+		Explain: "Configuration loading, decided structurally; sites are found by what they do (calls of the flag / strings / properties API, fields of config.Config, the set-map of config.FlagSet) inside the region of an exported entry point (config.Load, config.FlagSet.ParseFlags, HTTPProxy.ServeHTTP), never by the name of an unexported function or variable. (R1) for every flag definition flag.FlagSet.<T>Var(&v, name, default, usage) in package config - also inside wrappers (methods of config.FlagSet, local closures, extracted helpers: expanded per call) - v is a field path P of the Config being filled and the default is the same path P of the default configuration (exceptions are a frozen, reasoned table keyed by flag name); options parsed into a local take the field of the defaults table that belongs to that local; no two flags bind the same variable, and no two flag names collide case-insensitively (the environment lookup upper-cases them); (R2) in FlagSet.ParseFlags the command line is parsed before the flags it set are marked (Visit) and that before the fallback pass (VisitAll); in the fallback pass every assignment of a value (flag.FlagSet.Set / flag.Value.Set) is under the test that the flag is not yet marked, under the presence bit of the source the value comes from (comma-ok of the environment map, second result of Properties.Get, possibly handed on through helper results) and not under a test of the value itself; every assignment is accompanied by marking the flag; no assignment can follow another one; the properties are not consulted before the environment, and their value becomes the assigned one only on paths that left a test of the environment's presence bit on its false edge; (R3) the callers of ParseFlags pass the prefixes [\"FABIO_\", \"\"] in that order, the environment map is keyed by the case-normalised complete variable name and consulted under normalise(prefix + Replace(name, \".\", \"_\")) with the same normalisation; (P*) partial operations reachable from config.Load (Split/SplitN indices, slice bounds from Index*) are guarded; (V1) every int option that flows into an allocation size, channel capacity or status code is compared with a constant somewhere in the loading region, the failing outcome inevitably returns an error, the test dominates every successful return (it is not conditional on another option) and the error is handed on up to config.Load - or the value is clamped at the sink; (V2) values built from configuration at start-up are not used on the path on which their constructor's error was observed and only logged; (V3) enumerated options are validated raw (equality tests, switch, slices.Contains / set literal / helper given a literal list) against exactly the keys of the registries they index. Not decided: equality of the resulting Config across sources for every value of every type (behaviour of flag.Value.Set per type; R2 shows all sources use it).",
 		Run:     runC15,
 		Trusted: []string{"package flag: Visit visits flags set on the command line, VisitAll all flags, Set goes through flag.Value.Set", "magiconair/properties.Get"},
-		Mutants: []mutant{
+		Mutants: append([]mutant{
 			{Name: "glob cache size validated only when glob matching is on", File: "config/load.go", Old: "\tif cfg.GlobCacheSize < 0 {", New: "\tif !cfg.GlobMatchingDisabled && cfg.GlobCacheSize < 0 {", Expect: "C15.V1"},
 
 			{Name: "idle timeout flag bound to the keep-alive field", File: "config/load.go", Old: "f.DurationVar(&cfg.Proxy.IdleConnTimeout, \"proxy.idleconntimeout\", defaultConfig.Proxy.IdleConnTimeout,", New: "f.DurationVar(&cfg.Proxy.KeepAliveTimeout, \"proxy.idleconntimeout\", defaultConfig.Proxy.IdleConnTimeout,", Expect: "C15.R1"},
@@ -33,29 +34,17 @@ func init() {
 			{Name: "consul cert source continues after a failed setup", File: "cert/consul_source.go", Old: "\t\tlog.Printf(\"[ERROR] cert: Failed to create consul client. %s\", err)\n\t\treturn nil", New: "\t\tlog.Printf(\"[ERROR] cert: Failed to create consul client. %s\", err)", Expect: "C15.V2"},
 			{Name: "strategy validated case-insensitively", File: "config/load.go", Old: "if cfg.Proxy.Strategy != \"rr\" && cfg.Proxy.Strategy != \"rnd\" {", New: "if s := strings.ToLower(cfg.Proxy.Strategy); s != \"rr\" && s != \"rnd\" {", Expect: "C15.V3"},
 			{Name: "benign: registration reordered", File: "config/load.go", Old: "\tf.BoolVar(&cfg.Insecure, \"insecure\", defaultConfig.Insecure, \"allow fabio to run as root when set to true\")\n\tf.IntVar(&cfg.Proxy.MaxConn, \"proxy.maxconn\", defaultConfig.Proxy.MaxConn, \"maximum number of cached connections\")", New: "\tf.IntVar(&cfg.Proxy.MaxConn, \"proxy.maxconn\", defaultConfig.Proxy.MaxConn, \"maximum number of cached connections\")\n\tf.BoolVar(&cfg.Insecure, \"insecure\", defaultConfig.Insecure, \"allow fabio to run as root when set to true\")", Expect: ""},
-		},
+		}, c15MoreMutants...),
 	})
 }
 
-// frozen exceptions of R1: flag name -> reason.
+// frozen exceptions of R1: flag name -> reason. Flag names are the user-visible interface of fabio, so they are a
+// stable key (the variables the flags are parsed into are not).
 var c15DefaultExceptions = map[string]string{
 	"registry.consul.register.addr":                                "default is the placeholder \"<ui.addr>\": replaced by ui.addr after parsing (issue 657)",
 	"registry.consul.register.checkDeregisterCriticalServiceAfter": "deprecated option parsed into a local, no effect",
 	"proxy.log.routes":                                             "deprecated alias parsed into a local and copied to log.routes.format when set",
 	"aws.apigw.cert.cn":                                            "deprecated option parsed into a local, no effect",
-}
-
-func selectorPath(e ast.Expr) (string, bool) {
-	switch x := e.(type) {
-	case *ast.Ident:
-		return x.Name, true
-	case *ast.SelectorExpr:
-		p, ok := selectorPath(x.X)
-		return p + "." + x.Sel.Name, ok
-	case *ast.ParenExpr:
-		return selectorPath(x.X)
-	}
-	return "", false
 }
 
 func runC15(c *Ctx) {
@@ -66,594 +55,375 @@ func runC15(c *Ctx) {
 	runC15V1(c)
 	runC15V2(c)
 	runC15V3(c)
+	if os.Getenv("C15_DEBUG") != "" {
+		for _, o := range c.Obs {
+			if o.Rule != "C15.R1" || o.st != OK {
+				fmt.Fprintf(os.Stderr, "DBG %s | %s | %s | %s\n", o.Rule, o.Construct, o.Pos, o.Status)
+			}
+		}
+	}
 }
 
-func runC15R1(c *Ctx) {
-	fd, pp := c.funcDecl("config", "", "load")
-	if fd == nil {
-		c.undecided("C15.R1", "anchor|config.load", "not found")
-		return
+// ---- R1: the table of flag registrations ------------------------------------------------------------------------
+
+// c15path is where a pointer or a value comes from, as a root and a chain of field names.
+type c15path struct {
+	kind   string     // "cfg": a config.Config being filled; "global": a package-level variable; "local": a local variable; "const"; "param"; "other"
+	root   string     // printable root
+	id     ssa.Value  // identity of the root (local: the cell, global: the variable)
+	konst  *ssa.Const // kind "const"
+	fields []string
+}
+
+func (p c15path) String() string {
+	if p.kind == "const" {
+		return "<literal>"
 	}
-	type reg struct {
-		name, ptr, def string
-		pos            token.Pos
+	if len(p.fields) == 0 {
+		return p.root
 	}
-	var regs []reg
-	ast.Inspect(fd.Body, func(n ast.Node) bool {
-		call, ok := n.(*ast.CallExpr)
-		if !ok || len(call.Args) != 4 {
-			return true
+	return p.root + "." + strings.Join(p.fields, ".")
+}
+
+// leafName: the name of the designated variable itself (the last field, or the root).
+func (p c15path) leafName() string {
+	if n := len(p.fields); n > 0 {
+		return p.fields[n-1]
+	}
+	return p.root
+}
+
+// key identifies the designated variable (only for kinds with an identity).
+func (p c15path) key() string {
+	switch p.kind {
+	case "cfg":
+		return "cfg." + strings.Join(p.fields, ".")
+	case "local", "global":
+		return fmt.Sprintf("%s:%p.%s", p.kind, p.id, strings.Join(p.fields, "."))
+	}
+	return ""
+}
+
+func c15isConfigType(t types.Type) bool { return namedIs(t, "config.Config") }
+
+// c15resolver computes paths; a Parameter is replaced by the argument at the call site on top of ctx. When a
+// parameter is met with an empty ctx and the function has known call sites, needCaller is set: the registration
+// must be looked at once per caller.
+type c15resolver struct {
+	sites      c15siteIndex
+	needCaller *ssa.Function
+}
+
+func (r *c15resolver) path(v ssa.Value, ctx []ssa.CallInstruction, depth int) c15path {
+	other := c15path{kind: "other", root: "?"}
+	if v == nil || depth > 16 {
+		return other
+	}
+	withField := func(base ssa.Value, idx int) c15path {
+		p := r.path(base, ctx, depth+1)
+		p.fields = append(append([]string{}, p.fields...), fieldName(base.Type(), idx))
+		return p
+	}
+	global := func(g *ssa.Global) c15path {
+		return c15path{kind: "global", root: g.Name(), id: g}
+	}
+	local := func(cell ssa.Value) c15path {
+		if a, ok := c15cell(cell).(*ssa.Alloc); ok {
+			if p, isP := a.Type().(*types.Pointer); isP && c15isConfigType(p.Elem()) {
+				return c15path{kind: "cfg", root: "cfg", id: a}
+			}
+			name := a.Comment
+			if name == "" {
+				name = a.Name()
+			}
+			return c15path{kind: "local", root: name, id: a}
 		}
-		sel, ok := call.Fun.(*ast.SelectorExpr)
-		if !ok || !strings.HasSuffix(sel.Sel.Name, "Var") {
-			return true
+		return other
+	}
+	switch x := v.(type) {
+	case *ssa.FieldAddr:
+		return withField(x.X, x.Field)
+	case *ssa.Field:
+		return withField(x.X, x.Field)
+	case *ssa.Const:
+		return c15path{kind: "const", root: x.String(), konst: x}
+	case *ssa.Global:
+		return global(x)
+	case *ssa.Alloc:
+		// a local copy of a struct (d := defaultConfig.Proxy): the fields are those of the original
+		if pt, isP := x.Type().(*types.Pointer); isP {
+			if _, isStruct := pt.Elem().Underlying().(*types.Struct); isStruct && !c15isConfigType(pt.Elem()) {
+				if sv := c15stores(x); len(sv) == 1 {
+					if p := r.path(sv[0], ctx, depth+1); p.kind == "global" || p.kind == "cfg" {
+						return p
+					}
+				}
+			}
 		}
-		name, ok := constStringExpr(pp.TypesInfo, call.Args[1])
-		if !ok {
-			c.check("C15.R1", "config.load|flag with a computed name", call.Pos(), false, "flag names must be constants so that the name/pointer/default table can be checked")
-			return true
+		return local(x)
+	case *ssa.FreeVar:
+		if cell := c15cell(x); cell != x {
+			return r.path(cell, ctx, depth+1)
 		}
-		u, ok := call.Args[0].(*ast.UnaryExpr)
-		if !ok || u.Op != token.AND {
-			return true
+		return other
+	case *ssa.MakeInterface:
+		return r.path(x.X, ctx, depth+1)
+	case *ssa.ChangeType:
+		return r.path(x.X, ctx, depth+1)
+	case *ssa.Convert:
+		return r.path(x.X, ctx, depth+1)
+	case *ssa.UnOp:
+		if x.Op != token.MUL {
+			return other
 		}
-		ptr, _ := selectorPath(u.X)
-		def, isSel := selectorPath(call.Args[2])
-		if !isSel {
-			def = "<literal>"
+		switch y := x.X.(type) {
+		case *ssa.Global:
+			return global(y) // the object a pointer-typed package variable points to
+		case *ssa.Alloc, *ssa.FreeVar:
+			// the value of a local variable: what was stored into it, when that is unambiguous
+			if sv := c15stores(y); len(sv) == 1 {
+				return r.path(sv[0], ctx, depth+1)
+			}
+			return local(y)
 		}
-		regs = append(regs, reg{name, ptr, def, call.Pos()})
-		return true
-	})
-	c.atLeast("C15.R1", "flag registrations in config.load", len(regs), 50)
-	byPtr := map[string]string{}
-	byLower := map[string]string{}
-	for _, r := range regs {
-		key := "config.load|flag " + r.name
-		// same pointer twice / case-insensitive collision
-		if other, dup := byPtr[r.ptr]; dup {
-			c.check("C15.R1", key+" binds a variable of its own", r.pos, false, "flags "+other+" and "+r.name+" are bound to the same variable "+r.ptr+": whichever source is applied last silently overrides the other option")
+		return r.path(x.X, ctx, depth+1)
+	case *ssa.Parameter:
+		fn := x.Parent()
+		idx := -1
+		for k, p := range fn.Params {
+			if p == x {
+				idx = k
+			}
 		}
-		byPtr[r.ptr] = r.name
-		if other, dup := byLower[strings.ToLower(r.name)]; dup {
-			c.check("C15.R1", key+" has a case-insensitively unique name", r.pos, false, "flag names "+other+" and "+r.name+" differ only in case: both map to the same environment variable")
+		if n := len(ctx); n > 0 {
+			if args := ctx[n-1].Common().Args; idx >= 0 && idx < len(args) {
+				return r.path(args[idx], ctx[:n-1], depth+1)
+			}
+			return other
 		}
-		byLower[strings.ToLower(r.name)] = r.name
-		if why, exempt := c15DefaultExceptions[r.name]; exempt {
-			c.ob("C15.R1", key+" default", r.pos, OK, "reviewed exception: "+why)
+		if len(r.sites[fn]) > 0 {
+			r.needCaller = fn
+			return other
+		}
+		if c15isConfigType(x.Type()) {
+			return c15path{kind: "cfg", root: "cfg", id: x}
+		}
+		return c15path{kind: "param", root: x.Name(), id: x}
+	case *ssa.Call:
+		if c15isConfigType(x.Type()) {
+			return c15path{kind: "cfg", root: "cfg", id: x}
+		}
+	case *ssa.Extract:
+		if c15isConfigType(x.Type()) {
+			return c15path{kind: "cfg", root: "cfg", id: x}
+		}
+	}
+	return other
+}
+
+// c15reg is one flag definition: name, the variable it is parsed into, where its default comes from.
+type c15reg struct {
+	name     string
+	computed bool // the name is not a constant
+	hasPtr   bool
+	hasDef   bool
+	ptr, def c15path
+	pos      token.Pos
+}
+
+// c15valueCtor: for flag.FlagSet.Var(value, name, usage) with value = ctor(default, pointer) (any order): the pointer
+// and the default handed to the constructor of the flag.Value.
+func c15valueCtor(v ssa.Value) (ptr, def ssa.Value) {
+	for {
+		switch x := v.(type) {
+		case *ssa.MakeInterface:
+			v = x.X
+			continue
+		case *ssa.ChangeType:
+			v = x.X
+			continue
+		case *ssa.Convert:
+			v = x.X
 			continue
 		}
-		switch {
-		case strings.HasPrefix(r.ptr, "cfg."):
-			want := "defaultConfig." + strings.TrimPrefix(r.ptr, "cfg.")
-			c.check("C15.R1", key+" default", r.pos, r.def == want,
-				"flag "+r.name+" sets "+r.ptr+" but takes its default from "+r.def+" (expected "+want+"): without the option on any source the effective value is another option's default")
-		default:
-			// option parsed into a local and post-processed: default comes from defaultValues.<same name, case-insensitive>
-			want := "defaultValues." + r.ptr
-			c.check("C15.R1", key+" default", r.pos, strings.EqualFold(r.def, want),
-				"flag "+r.name+" is parsed into the local "+r.ptr+" but takes its default from "+r.def+" (expected "+want+", case-insensitively)")
-		}
+		break
 	}
-}
-
-func runC15R2(c *Ctx) {
-	pf := c.method("config", "FlagSet", "ParseFlags")
-	if !c.need("C15.R2", pf, "config.FlagSet.ParseFlags") {
-		return
-	}
-	var parse, visit, visitAll ssa.Instruction
-	eachInstr(pf, func(i ssa.Instruction) {
-		cc := callCommon(i)
-		if cc == nil {
-			return
-		}
-		switch calleeName(cc) {
-		case "(*flag.FlagSet).Parse":
-			parse = i
-		case "(*flag.FlagSet).Visit":
-			visit = i
-		case "(*flag.FlagSet).VisitAll":
-			visitAll = i
-		}
-	})
-	ok := parse != nil && visit != nil && visitAll != nil && dominatesInstr(parse, visit) && dominatesInstr(visit, visitAll)
-	c.check("C15.R2", "(*config.FlagSet).ParseFlags|command line, then mark, then fallbacks", pf.Pos(), ok,
-		"the command line must be parsed first, the flags set there marked (Visit) and only then the fallback sources consulted (VisitAll); any other order lets the environment or the file override the command line")
+	call, ok := v.(*ssa.Call)
 	if !ok {
-		return
-	}
-	// the Visit closure marks set[name] = true
-	marks := false
-	if mc, isMC := callCommon(visit).Args[1].(*ssa.MakeClosure); isMC {
-		eachInstr(mc.Fn.(*ssa.Function), func(i ssa.Instruction) {
-			if mu, ok := i.(*ssa.MapUpdate); ok {
-				if v, isK := constBool(mu.Value); isK && v {
-					marks = true
-				}
-			}
-		})
-	}
-	c.check("C15.R2", "(*config.FlagSet).ParseFlags|flags given on the command line are marked as set", visit.Pos(), marks, "the Visit pass must record every flag the command line set")
-	mc, isMC := callCommon(visitAll).Args[1].(*ssa.MakeClosure)
-	if !isMC {
-		c.undecided("C15.R2", "(*config.FlagSet).ParseFlags|fallback closure", "VisitAll is not given a closure")
-		return
-	}
-	fb := mc.Fn.(*ssa.Function)
-	// "already set => return" in the entry block
-	early := false
-	if iff, ok := fb.Blocks[0].Instrs[len(fb.Blocks[0].Instrs)-1].(*ssa.If); ok {
-		if lk, ok := iff.Cond.(*ssa.Lookup); ok && strings.HasSuffix(accessPath(lk.X), ".set") {
-			if _, isRet := fb.Blocks[0].Succs[0].Instrs[len(fb.Blocks[0].Succs[0].Instrs)-1].(*ssa.Return); isRet && len(fb.Blocks[0].Succs[0].Instrs) == 1 {
-				early = true
-			}
+		if _, isPtr := v.Type().Underlying().(*types.Pointer); isPtr {
+			return v, nil
 		}
+		return nil, nil
 	}
-	c.check("C15.R2", "(*config.FlagSet).ParseFlags$fallback|a flag that is already set is left alone", fb.Pos(), early,
-		"the fallback pass must return immediately for a flag that is already set: otherwise the environment or the properties file overrides the command line")
-	// sources: env lookup (map lookup on the env map) and properties Get
-	var envLk, propGet ssa.Instruction
-	var propGets []ssa.Instruction
-	eachInstr(fb, func(i ssa.Instruction) {
-		if lk, ok := i.(*ssa.Lookup); ok && lk.CommaOk && typeStr(lk.X.Type()) == "map[string]string" {
-			envLk = i
-		}
-		if cc := callCommon(i); cc != nil && calleeName(cc) == "(*github.com/magiconair/properties.Properties).Get" {
-			propGet = i
-			propGets = append(propGets, i)
-		}
-	})
-	if envLk == nil || propGet == nil {
-		c.check("C15.R2", "(*config.FlagSet).ParseFlags$fallback|environment and properties both consulted", fb.Pos(), false, "a fallback source is missing")
-		return
-	}
-	envFirst := pathAvoiding(envLk, propGet, nil)
-	for _, pg := range propGets {
-		if pathAvoiding(pg, envLk, nil) {
-			envFirst = false
-		}
-	}
-	c.check("C15.R2", "(*config.FlagSet).ParseFlags$fallback|environment before properties", envLk.Pos(), envFirst,
-		"the environment must be consulted before the properties file (documented precedence); the properties lookup must not be able to run first")
-	// each successful source: mark, Set, return — on the `ok` edge of the source
-	for _, src := range []struct {
-		name string
-		in   ssa.Instruction
-	}{{"environment", envLk}, {"properties", propGet}} {
-		var okV ssa.Value
-		if v, isV := src.in.(ssa.Value); isV {
-			for _, r := range *v.Referrers() {
-				if e, isE := r.(*ssa.Extract); isE && e.Index == 1 {
-					okV = e
+	for _, a := range call.Call.Args {
+		if p, isPtr := a.Type().Underlying().(*types.Pointer); isPtr {
+			for _, b := range call.Call.Args {
+				if b != a && types.Identical(p.Elem(), b.Type()) {
+					return a, b
 				}
 			}
 		}
-		found := false
-		for _, b := range fb.Blocks {
-			hit := false
-			for _, f := range factsAt(b) {
-				if f.Cond == okV && f.Truth {
-					hit = true
-				}
-			}
-			if !hit || len(b.Preds) != 1 {
-				continue
-			}
-			mark, set, ret := false, false, false
-			for _, in := range b.Instrs {
-				switch x := in.(type) {
-				case *ssa.MapUpdate:
-					if v, isK := constBool(x.Value); isK && v {
-						mark = true
-					}
-				case *ssa.Call:
-					if calleeName(&x.Call) == "(*flag.FlagSet).Set" {
-						// value from this source
-						if derives(x.Call.Args[2], func(v ssa.Value) bool { return v == src.in.(ssa.Value) }) {
-							set = true
-						}
-					}
-				case *ssa.Return:
-					ret = true
-				}
-			}
-			if mark && set && ret {
-				found = true
-			}
-			if hit && !(mark && set && ret) && len(b.Instrs) > 1 {
-				c.check("C15.R2", "(*config.FlagSet).ParseFlags$fallback|"+src.name+" value is marked, assigned through Set, and ends the search", b.Instrs[0].Pos(), false,
-					"when the "+src.name+" supplies a value the flag must be marked as set, assigned through FlagSet.Set (same parsing as the command line) and the search must stop: otherwise a lower-priority source overrides it, or IsSet() reports the wrong origin")
-				return
-			}
-		}
-		c.check("C15.R2", "(*config.FlagSet).ParseFlags$fallback|"+src.name+" value is marked, assigned through Set, and ends the search", src.in.Pos(), found,
-			"when the "+src.name+" supplies a value the flag must be marked as set, assigned through FlagSet.Set and the search must stop")
 	}
+	return nil, nil
 }
 
-func runC15R3(c *Ctx) {
-	load := c.fn("config", "Load")
-	inner := c.fn("config", "load")
-	pf := c.method("config", "FlagSet", "ParseFlags")
-	if !c.need("C15.R3", load, "config.Load") || inner == nil || pf == nil {
-		return
-	}
-	// the prefix slice literal: elements by index
-	okPfx := false
-	eachInstr(load, func(i ssa.Instruction) {
-		call, ok := i.(*ssa.Call)
-		if !ok || call.Call.StaticCallee() != inner {
+var c15valueDefiners = map[string]bool{"String": true, "Bool": true, "Int": true, "Int64": true, "Uint": true, "Uint64": true, "Float64": true, "Duration": true, "Func": true, "BoolFunc": true}
+
+// c15registrations finds every definition of a flag in package config: calls of the methods of flag.FlagSet that
+// define one, wherever they are; when they sit in a wrapper (a method of config.FlagSet, a local closure, an
+// extracted helper that gets the pointers as parameters) they are expanded once per call of the wrapper.
+func c15registrations(c *Ctx) []c15reg {
+	fns := c.fnsWhere("config", func(*ssa.Function) bool { return true })
+	sites := c15buildSites(fns)
+	var regs []c15reg
+	var enumerate func(call *ssa.Call, ptrV, nameV, defV ssa.Value, ctx []ssa.CallInstruction)
+	enumerate = func(call *ssa.Call, ptrV, nameV, defV ssa.Value, ctx []ssa.CallInstruction) {
+		r := &c15resolver{sites: sites}
+		reg := c15reg{pos: call.Pos()}
+		if len(ctx) > 0 {
+			reg.pos = ctx[0].Pos()
+		}
+		np := r.path(nameV, ctx, 0)
+		if ptrV != nil {
+			reg.hasPtr = true
+			reg.ptr = r.path(ptrV, ctx, 0)
+		}
+		if defV != nil {
+			reg.hasDef = true
+			reg.def = r.path(defV, ctx, 0)
+		}
+		if r.needCaller != nil && len(ctx) < 3 {
+			for _, s := range sites[r.needCaller] {
+				if ci, ok := s.(ssa.CallInstruction); ok {
+					enumerate(call, ptrV, nameV, defV, append([]ssa.CallInstruction{ci}, ctx...))
+				}
+			}
 			return
 		}
-		for _, a := range call.Call.Args {
-			sl, ok := a.(*ssa.Slice)
-			if !ok {
-				continue
-			}
-			arr, ok := sl.X.(*ssa.Alloc)
-			if !ok {
-				continue
-			}
-			elems := map[int64]string{}
-			for _, r := range *arr.Referrers() {
-				if ia, ok := r.(*ssa.IndexAddr); ok {
-					k, _ := constInt(ia.Index)
-					for _, r2 := range *ia.Referrers() {
-						if st, ok := r2.(*ssa.Store); ok {
-							if s, ok := constString(st.Val); ok {
-								elems[k] = s
-							}
-						}
-					}
-				}
-			}
-			if len(elems) == 2 && elems[0] == "FABIO_" && elems[1] == "" {
-				okPfx = true
+		reg.computed = true
+		if np.kind == "const" && np.konst != nil {
+			if s, ok := constString(np.konst); ok {
+				reg.name, reg.computed = s, false
 			}
 		}
-	})
-	c.check("C15.R3", "config.Load|environment prefixes [\"FABIO_\", \"\"] in that order", load.Pos(), okPfx, "the FABIO_-prefixed variable must win over the plain one: the prefixes must be passed as [\"FABIO_\", \"\"]")
-	// env map keys upper-cased; lookup names upper-cased with '.' -> '_'
-	okKey := false
-	eachInstr(pf, func(i ssa.Instruction) {
-		if mu, ok := i.(*ssa.MapUpdate); ok && typeStr(mu.Map.Type()) == "map[string]string" {
-			if _, isUp := isCallTo(mu.Key, "strings.ToUpper"); isUp {
-				okKey = true
-			}
-		}
-	})
-	c.check("C15.R3", "(*config.FlagSet).ParseFlags|environment map keyed by the upper-cased name", pf.Pos(), okKey, "environment variables are case-insensitive: the map must be keyed by strings.ToUpper(name)")
-	okName := false
-	for _, f := range pf.AnonFuncs {
-		eachInstr(f, func(i ssa.Instruction) {
-			lk, ok := i.(*ssa.Lookup)
-			if !ok || typeStr(lk.X.Type()) != "map[string]string" {
-				return
-			}
-			up, isUp := isCallTo(lk.Index, "strings.ToUpper")
-			if !isUp {
-				return
-			}
-			// argument: prefix + Replace(name, ".", "_")
-			add, isAdd := up.Call.Args[0].(*ssa.BinOp)
-			if !isAdd || add.Op != token.ADD {
-				return
-			}
-			rep, isRep := isCallTo(add.Y, "strings.Replace", "strings.ReplaceAll")
-			if !isRep {
-				return
-			}
-			o, _ := constString(rep.Call.Args[1])
-			n, _ := constString(rep.Call.Args[2])
-			if o == "." && n == "_" {
-				okName = true
-			}
-		})
+		regs = append(regs, reg)
 	}
-	c.check("C15.R3", "(*config.FlagSet).ParseFlags$fallback|environment name is ToUpper(prefix + name with '.' -> '_')", pf.Pos(), okName,
-		"the environment variable of option a.b.c must be looked up as ToUpper(prefix + \"a_b_c\") against the upper-cased map; otherwise options given in the environment (in any letter case) are not found")
-}
-
-func runC15P(c *Ctx) {
-	load := c.fn("config", "Load")
-	if load == nil {
-		return
-	}
-	scope := map[*ssa.Function]bool{}
-	for f := range c.reach(load) {
-		if rootPkg(f) == c.spkg("config") {
-			scope[f] = true
-		}
-	}
-	n := runPartialOps(c, "C15.P1", scope)
-	c.atLeast("C15.P1", "constant indices / Index-derived bounds reachable from config.Load", n, 3)
-}
-
-// runC15V1: int options that reach a size / capacity / status sink.
-func runC15V1(c *Ctx) {
-	cfgPkg := c.spkg("config")
-	if cfgPkg == nil {
-		return
-	}
-	// 1. repo functions with an int parameter that flows into a make size/capacity
-	type sizeParam struct {
-		f   *ssa.Function
-		idx int
-	}
-	var sized []sizeParam
-	for _, f := range c.AllFns {
-		for k, p := range f.Params {
-			if !isIntType(p.Type()) {
-				continue
-			}
-			hit := false
-			eachInstr(f, func(i ssa.Instruction) {
-				switch x := i.(type) {
-				case *ssa.MakeSlice:
-					if x.Len == p || x.Cap == p {
-						hit = true
-					}
-				case *ssa.MakeChan:
-					if x.Size == p {
-						hit = true
-					}
-				}
-			})
-			if hit {
-				sized = append(sized, sizeParam{f, k})
-			}
-		}
-	}
-	isCfgField := func(v ssa.Value) (string, bool) {
-		u, ok := v.(*ssa.UnOp)
-		if !ok || u.Op != token.MUL {
-			return "", false
-		}
-		fa, ok := u.X.(*ssa.FieldAddr)
-		if !ok {
-			return "", false
-		}
-		k := typeKey(fa.X.Type())
-		if !strings.HasPrefix(k, repoMod+"/config.") {
-			return "", false
-		}
-		return strings.TrimPrefix(k, repoMod+"/config.") + "." + fieldName(fa.X.Type(), fa.Field), true
-	}
-	load := c.fn("config", "load")
-	hasRangeCheck := func(field string) bool {
-		if load == nil {
-			return false
-		}
-		found := false
-		eachInstr(load, func(i ssa.Instruction) {
-			b, ok := i.(*ssa.BinOp)
-			if !ok {
-				return
-			}
-			switch b.Op {
-			case token.LSS, token.LEQ, token.GTR, token.GEQ:
-			default:
-				return
-			}
-			fn, isF := isCfgField(b.X)
-			if !isF || fn != field {
-				return
-			}
-			if _, isK := b.Y.(*ssa.Const); !isK {
-				return
-			}
-			// the true edge returns an error
-			for _, r := range *b.Referrers() {
-				if iff, ok := r.(*ssa.If); ok {
-					for _, s := range iff.Block().Succs {
-						seen := reachableFrom([]*ssa.BasicBlock{iff.Block()}, nil)
-						_ = seen
-						if len(s.Instrs) > 0 {
-							if ret, ok := s.Instrs[len(s.Instrs)-1].(*ssa.Return); ok && len(ret.Results) == 2 && !isNilConst(ret.Results[1]) {
-								// ... and the test is made for every configuration that load accepts
-								for _, sb := range load.Blocks {
-									if len(sb.Instrs) == 0 {
-										continue
-									}
-									if sr, ok := sb.Instrs[len(sb.Instrs)-1].(*ssa.Return); ok && len(sr.Results) == 2 && isNilConst(sr.Results[1]) && b.Block().Dominates(sb) {
-										found = true
-									}
-								}
-							}
-						}
-					}
-				}
-			}
-		})
-		return found
-	}
-	n := 0
-	for _, sp := range sized {
-		for _, f := range c.AllFns {
-			eachInstr(f, func(i ssa.Instruction) {
-				cc := callCommon(i)
-				if cc == nil || cc.StaticCallee() != sp.f || sp.idx >= len(cc.Args) {
-					return
-				}
-				field, ok := isCfgField(cc.Args[sp.idx])
-				if !ok {
-					return
-				}
-				n++
-				c.check("C15.V1", "config."+field+"|allocation size in "+fnKey(sp.f), i.Pos(), hasRangeCheck(field),
-					"the int option "+field+" is used as an allocation size in "+fnKey(sp.f)+" but config.load accepts any value: a negative value passes validation and panics when the listeners are created (makeslice: len out of range)")
-			})
-		}
-	}
-	// 2. config ints used directly as make size / chan capacity with a local clamp
-	for _, f := range c.AllFns {
-		eachInstr(f, func(i ssa.Instruction) {
-			var size ssa.Value
-			switch x := i.(type) {
-			case *ssa.MakeChan:
-				size = x.Size
-			case *ssa.MakeSlice:
-				size = x.Len
-			default:
-				return
-			}
-			var field string
-			derives(size, func(v ssa.Value) bool {
-				if fn, ok := isCfgField(v); ok {
-					field = fn
-					return true
-				}
-				return false
-			})
-			if field == "" {
-				return
-			}
-			n++
-			// clamp: the size is a merge whose config edge is taken only under a `> 0` style fact
-			okClamp := hasRangeCheck(field)
-			for _, d := range defsOf(size) {
-				if _, isF := isCfgField(d.Val); isF && d.Block != nil {
-					for _, ft := range factsAt(d.Block) {
-						if b, ok := ft.Cond.(*ssa.BinOp); ok {
-							if fn, isF := isCfgField(b.X); isF && fn == field {
-								okClamp = true
-							}
-						}
-					}
-				}
-			}
-			if ph, ok := size.(*ssa.Phi); ok {
-				for _, e := range ph.Edges {
-					if k, ok := constInt(e); ok && k >= 1 {
-						okClamp = true
-					}
-				}
-			}
-			c.check("C15.V1", "config."+field+"|size in "+fnKey(f), i.Pos(), okClamp, "the int option "+field+" sizes an allocation/channel in "+fnKey(f)+" without a range check in load or a clamp at the use")
-		})
-	}
-	// 3. status code
-	serve := c.method("proxy", "HTTPProxy", "ServeHTTP")
-	if serve != nil {
-		eachInstr(serve, func(i ssa.Instruction) {
-			cc := callCommon(i)
-			if cc == nil || !cc.IsInvoke() || cc.Method.Name() != "WriteHeader" {
-				return
-			}
-			var field string
-			derives(cc.Args[0], func(v ssa.Value) bool {
-				if fn, ok := isCfgField(v); ok {
-					field = fn
-					return true
-				}
-				return false
-			})
-			if field == "" {
-				return
-			}
-			n++
-			c.check("C15.V1", "config."+field+"|status code in ServeHTTP", i.Pos(), hasRangeCheck(field), "a configured status code must be range-checked in load (net/http panics on codes outside 100-999)")
-		})
-	}
-	c.atLeast("C15.V1", "int options reaching a size/capacity/status sink", n, 3)
-}
-
-// runC15V2 (ERRUSE): the primary result of (v, err) := f() is used on a path on which err != nil was observed and
-// control was not left. Scope: start-up code of the configuration-driven sources.
-func runC15V2(c *Ctx) {
-	n := 0
-	for _, f := range c.AllFns {
-		pkgOK := false
-		for _, p := range []string{"cert", "registry/custom", "registry/consul", "registry/file", "registry/static", "main", "config", "metrics", "auth"} {
-			if rootPkg(f) == c.spkg(p) {
-				pkgOK = true
-			}
-		}
-		if !pkgOK {
-			continue
-		}
-		eachInstr(f, func(i ssa.Instruction) {
+	for _, fn := range fns {
+		eachInstr(fn, func(i ssa.Instruction) {
 			call, ok := i.(*ssa.Call)
 			if !ok {
 				return
 			}
-			res := call.Call.Signature().Results()
-			if res.Len() < 2 || typeStr(res.At(res.Len()-1).Type()) != "error" {
+			n := calleeName(&call.Call)
+			if !strings.HasPrefix(n, "(*flag.FlagSet).") {
 				return
 			}
-			if _, isPtr := res.At(0).Type().Underlying().(*types.Pointer); !isPtr {
-				return
-			}
-			var v, e ssa.Value
-			for _, r := range *call.Referrers() {
-				if ex, ok := r.(*ssa.Extract); ok {
-					if ex.Index == 0 {
-						v = ex
-					}
-					if ex.Index == res.Len()-1 {
-						e = ex
-					}
-				}
-			}
-			if v == nil || e == nil || v.Referrers() == nil {
-				return
-			}
-			// blocks entered on the err != nil edge
-			for _, b := range f.Blocks {
-				if len(b.Preds) != 1 || !knownNonNil(b, sameVal(e)) || knownNonNil(b.Preds[0], sameVal(e)) {
-					continue
-				}
-				n++
-				// does a dereferencing use of v stay reachable from b?
-				var bad ssa.Instruction
-				for _, r := range *v.Referrers() {
-					ri, ok := r.(ssa.Instruction)
-					if !ok {
-						continue
-					}
-					deref := false
-					switch x := r.(type) {
-					case *ssa.FieldAddr:
-						deref = x.X == v
-					case *ssa.UnOp:
-						deref = x.Op == token.MUL && x.X == v
-					case *ssa.Call:
-						deref = len(x.Call.Args) > 0 && x.Call.Args[0] == v && x.Call.StaticCallee() != nil && x.Call.StaticCallee().Signature.Recv() != nil
-						if x.Call.StaticCallee() != nil && !deref {
-							for _, a := range x.Call.Args {
-								if a == v && !isRepoFn(x.Call.StaticCallee()) {
-									deref = true // handed to library code that dereferences it (api.NewClient(config), watchers)
-								}
-							}
-						}
-					case *ssa.Go:
-						for _, a := range x.Call.Args {
-							if a == v {
-								deref = true
-							}
-						}
-					}
-					if !deref {
-						continue
-					}
-					if ri.Block() == b || reachableFrom([]*ssa.BasicBlock{b}, nil)[ri.Block()] {
-						// not if the use is itself guarded by err == nil / v != nil
-						if knownNil(ri.Block(), sameVal(e)) || knownNonNil(ri.Block(), sameVal(v)) {
-							continue
-						}
-						bad = ri
-					}
-				}
-				pos := b.Instrs[0].Pos()
-				detail := "the error edge leaves the function (or the value is not used afterwards)"
-				if bad != nil {
-					pos = bad.Pos()
-					detail = "after " + strings.TrimPrefix(calleeName(&call.Call), repoMod+"/") + " failed its nil result is still used here: configuration that makes the constructor fail (an invalid URL, host or scheme) is accepted by load and then panics at start-up instead of being reported"
-				}
-				c.check("C15.V2", fnKey(f)+"|result of "+strings.TrimPrefix(calleeName(&call.Call), repoMod+"/")+" not used after its error", pos, bad == nil, detail)
+			m := strings.TrimPrefix(n, "(*flag.FlagSet).")
+			a := call.Call.Args
+			switch {
+			case m == "Var" && len(a) == 4:
+				p, d := c15valueCtor(a[1])
+				enumerate(call, p, a[2], d, nil)
+			case strings.HasSuffix(m, "Var") && len(a) == 5:
+				enumerate(call, a[1], a[2], a[3], nil)
+			case c15valueDefiners[m] && len(a) >= 3:
+				enumerate(call, nil, a[1], nil, nil)
 			}
 		})
 	}
-	c.atLeast("C15.V2", "error edges of pointer-returning constructors in start-up code", n, 5)
+	return regs
+}
+
+func runC15R1(c *Ctx) {
+	if c.spkg("config") == nil {
+		c.undecided("C15.R1", "anchor|package config", "not found")
+		return
+	}
+	regs := c15registrations(c)
+	nVar := 0
+	for _, r := range regs {
+		if r.hasPtr {
+			nVar++
+		}
+	}
+	c.atLeast("C15.R1", "flag definitions f.<T>Var(&variable, name, default, usage) in package config", nVar, 50)
+	byPtr := map[string]string{}
+	byLower := map[string]string{}
+	byDef := map[string]int{}
+	locals := map[string]string{} // lower-cased name of a local a flag is parsed into -> flag
+	for _, r := range regs {
+		if r.hasDef && r.def.kind == "global" {
+			byDef[r.def.key()]++
+		}
+		if r.hasPtr && r.ptr.kind == "local" {
+			locals[strings.ToLower(r.ptr.leafName())] = r.name
+		}
+	}
+	for _, r := range regs {
+		if r.computed {
+			c.check("C15.R1", "config|flag with a computed name", r.pos, false, "flag names must be constants so that the name/pointer/default table can be checked")
+			continue
+		}
+		key := "flag " + r.name
+		if other, dup := byLower[strings.ToLower(r.name)]; dup {
+			c.check("C15.R1", key+"|case-insensitively unique name", r.pos, false, "flag names "+other+" and "+r.name+" differ only in case: both map to the same environment variable")
+		}
+		byLower[strings.ToLower(r.name)] = r.name
+		if !r.hasPtr {
+			continue
+		}
+		if k := r.ptr.key(); k != "" {
+			if other, dup := byPtr[k]; dup {
+				c.check("C15.R1", key+"|binds a variable of its own", r.pos, false, "flags "+other+" and "+r.name+" are bound to the same variable "+r.ptr.String()+": whichever source is applied last silently overrides the other option")
+			}
+			byPtr[k] = r.name
+		}
+		if why, exempt := c15DefaultExceptions[r.name]; exempt {
+			c.ob("C15.R1", key+"|default", r.pos, OK, "reviewed exception: "+why)
+			continue
+		}
+		if !r.hasDef {
+			continue // flag.Value without a separate default: the variable keeps what it holds
+		}
+		// the default configuration: a package-level *Config, or a Config obtained in another way than the one
+		// that is being filled (a DefaultConfig() call, a parameter)
+		defIsConfig := false
+		if g, ok := r.def.id.(*ssa.Global); ok && r.def.kind == "global" {
+			defIsConfig = c15isConfigType(g.Type())
+		}
+		if r.def.kind == "cfg" && r.ptr.kind == "cfg" && r.def.id != r.ptr.id {
+			defIsConfig = true
+		}
+		switch r.ptr.kind {
+		case "cfg":
+			ok := defIsConfig && strings.Join(r.def.fields, ".") == strings.Join(r.ptr.fields, ".")
+			c.check("C15.R1", key+"|default", r.pos, ok,
+				"flag "+r.name+" sets "+r.ptr.String()+" but takes its default from "+r.def.String()+" (expected the same field path of the default configuration): without the option on any source the effective value is another option's default")
+		case "local":
+			// option parsed into a local and post-processed: the default is the field of a package-level table of
+			// defaults that belongs to this local (same name, case-insensitively); a renamed local is accepted as
+			// long as the default is not the one that belongs to another flag's local and no other flag uses it.
+			ok := false
+			why := ""
+			switch {
+			case r.def.kind != "global" || len(r.def.fields) == 0:
+				why = "not a field of a package-level table of defaults"
+			case strings.EqualFold(r.def.fields[len(r.def.fields)-1], r.ptr.leafName()) && !defIsConfig:
+				ok = true
+			case byDef[r.def.key()] > 1:
+				why = "the same default is used by another flag"
+			case locals[strings.ToLower(r.def.fields[len(r.def.fields)-1])] != "" && locals[strings.ToLower(r.def.fields[len(r.def.fields)-1])] != r.name:
+				why = "that is the default of flag " + locals[strings.ToLower(r.def.fields[len(r.def.fields)-1])]
+			default:
+				ok = true
+			}
+			c.check("C15.R1", key+"|default", r.pos, ok,
+				"flag "+r.name+" is parsed into the local "+r.ptr.String()+" but takes its default from "+r.def.String()+": "+why)
+		default:
+			// the variable is not identified (built by code the rule does not follow): only the uniqueness of the
+			// default can be checked
+			ok := r.def.kind != "global" || byDef[r.def.key()] <= 1
+			c.check("C15.R1", key+"|default", r.pos, ok, "flag "+r.name+" takes its default from "+r.def.String()+", which another flag uses as well")
+		}
+	}
 }
